@@ -8,6 +8,7 @@ are atoms — int atoms `10k` (order_id), `10k+1` (placed_at), `10k+2` (agent_id
 *shape* (market / limit order, ttl given or not) is read off the model order.  The two `OrderKind`
 constants live at 100 (`MARKET_ORDER`) and 101 (`LIMIT_ORDER`).
 -/
+import PamsLemmas.EvalNf
 import PamsGen.Code
 import PamsModel.Order
 import PamsLemmas.PySem
@@ -75,10 +76,10 @@ def opPaths (fn : String) (xs : List Val) (la lb : Bool) :=
   obsPaths env FUEL fn ([.ref 1, .ref 2] ++ xs) (st2 la false lb false)
 
 set_option maxRecDepth 100000
-theorem gtLt_tt : opPaths "Order._gt_lt" [.bool (.atom 1)] true true = nf% (opPaths "Order._gt_lt" [.bool (.atom 1)] true true) := by rfl
-theorem gtLt_tf : opPaths "Order._gt_lt" [.bool (.atom 1)] true false = nf% (opPaths "Order._gt_lt" [.bool (.atom 1)] true false) := by rfl
-theorem gtLt_ft : opPaths "Order._gt_lt" [.bool (.atom 1)] false true = nf% (opPaths "Order._gt_lt" [.bool (.atom 1)] false true) := by rfl
-theorem gtLt_ff : opPaths "Order._gt_lt" [.bool (.atom 1)] false false = nf% (opPaths "Order._gt_lt" [.bool (.atom 1)] false false) := by rfl
+theorem gtLt_tt : opPaths "Order._gt_lt" [.bool (.atom 1)] true true = evalnf% (opPaths "Order._gt_lt" [.bool (.atom 1)] true true) := by kernel_rfl
+theorem gtLt_tf : opPaths "Order._gt_lt" [.bool (.atom 1)] true false = evalnf% (opPaths "Order._gt_lt" [.bool (.atom 1)] true false) := by kernel_rfl
+theorem gtLt_ft : opPaths "Order._gt_lt" [.bool (.atom 1)] false true = evalnf% (opPaths "Order._gt_lt" [.bool (.atom 1)] false true) := by kernel_rfl
+theorem gtLt_ff : opPaths "Order._gt_lt" [.bool (.atom 1)] false false = evalnf% (opPaths "Order._gt_lt" [.bool (.atom 1)] false false) := by kernel_rfl
 
 /-- **`Order._gt_lt` of the current source is the model's `gtLt`** on two accepted orders of one
 side (the shapes of the heap objects are those of `a` and `b`; `gt` is the bool atom 1) -/
@@ -176,10 +177,10 @@ macro "order_op " fn:term:max xs:term:max ff:term:max ft:term:max tf:term:max tt
         Order.eqv, Order.le, Order.ge] at h ⊢
       all_goals grind))
 
-theorem lt_tt : opPaths "Order.__lt__" [] true true = nf% (opPaths "Order.__lt__" [] true true) := by rfl
-theorem lt_tf : opPaths "Order.__lt__" [] true false = nf% (opPaths "Order.__lt__" [] true false) := by rfl
-theorem lt_ft : opPaths "Order.__lt__" [] false true = nf% (opPaths "Order.__lt__" [] false true) := by rfl
-theorem lt_ff : opPaths "Order.__lt__" [] false false = nf% (opPaths "Order.__lt__" [] false false) := by rfl
+theorem lt_tt : opPaths "Order.__lt__" [] true true = evalnf% (opPaths "Order.__lt__" [] true true) := by kernel_rfl
+theorem lt_tf : opPaths "Order.__lt__" [] true false = evalnf% (opPaths "Order.__lt__" [] true false) := by kernel_rfl
+theorem lt_ft : opPaths "Order.__lt__" [] false true = evalnf% (opPaths "Order.__lt__" [] false true) := by kernel_rfl
+theorem lt_ff : opPaths "Order.__lt__" [] false false = evalnf% (opPaths "Order.__lt__" [] false false) := by kernel_rfl
 
 /-- **`Order.__lt__`** (what `heapq` calls) is the model's `Order.lt` -/
 theorem lt_correct (a b : Order K) (dflt : K) (x : Nat → Int) (y : Nat → Bool) (hs : a.isBuy = b.isBuy) :
@@ -191,10 +192,10 @@ theorem lt_correct (a b : Order K) (dflt : K) (x : Nat → Int) (y : Nat → Boo
   subst hs
   order_op "Order.__lt__" [] lt_ff lt_ft lt_tf lt_tt
 
-theorem gt_tt : opPaths "Order.__gt__" [] true true = nf% (opPaths "Order.__gt__" [] true true) := by rfl
-theorem gt_tf : opPaths "Order.__gt__" [] true false = nf% (opPaths "Order.__gt__" [] true false) := by rfl
-theorem gt_ft : opPaths "Order.__gt__" [] false true = nf% (opPaths "Order.__gt__" [] false true) := by rfl
-theorem gt_ff : opPaths "Order.__gt__" [] false false = nf% (opPaths "Order.__gt__" [] false false) := by rfl
+theorem gt_tt : opPaths "Order.__gt__" [] true true = evalnf% (opPaths "Order.__gt__" [] true true) := by kernel_rfl
+theorem gt_tf : opPaths "Order.__gt__" [] true false = evalnf% (opPaths "Order.__gt__" [] true false) := by kernel_rfl
+theorem gt_ft : opPaths "Order.__gt__" [] false true = evalnf% (opPaths "Order.__gt__" [] false true) := by kernel_rfl
+theorem gt_ff : opPaths "Order.__gt__" [] false false = evalnf% (opPaths "Order.__gt__" [] false false) := by kernel_rfl
 
 theorem gt_correct (a b : Order K) (dflt : K) (x : Nat → Int) (y : Nat → Bool) (hs : a.isBuy = b.isBuy) :
     result (rho2 a b dflt x y) env FUEL "Order.__gt__" [.ref 1, .ref 2]
@@ -205,10 +206,10 @@ theorem gt_correct (a b : Order K) (dflt : K) (x : Nat → Int) (y : Nat → Boo
   subst hs
   order_op "Order.__gt__" [] gt_ff gt_ft gt_tf gt_tt
 
-theorem eq_tt : opPaths "Order.__eq__" [] true true = nf% (opPaths "Order.__eq__" [] true true) := by rfl
-theorem eq_tf : opPaths "Order.__eq__" [] true false = nf% (opPaths "Order.__eq__" [] true false) := by rfl
-theorem eq_ft : opPaths "Order.__eq__" [] false true = nf% (opPaths "Order.__eq__" [] false true) := by rfl
-theorem eq_ff : opPaths "Order.__eq__" [] false false = nf% (opPaths "Order.__eq__" [] false false) := by rfl
+theorem eq_tt : opPaths "Order.__eq__" [] true true = evalnf% (opPaths "Order.__eq__" [] true true) := by kernel_rfl
+theorem eq_tf : opPaths "Order.__eq__" [] true false = evalnf% (opPaths "Order.__eq__" [] true false) := by kernel_rfl
+theorem eq_ft : opPaths "Order.__eq__" [] false true = evalnf% (opPaths "Order.__eq__" [] false true) := by kernel_rfl
+theorem eq_ff : opPaths "Order.__eq__" [] false false = evalnf% (opPaths "Order.__eq__" [] false false) := by kernel_rfl
 
 /-- **`Order.__eq__`** (what `list.remove` uses) is the model's `Order.eqv` -/
 theorem eq_correct (a b : Order K) (dflt : K) (x : Nat → Int) (y : Nat → Bool) (hs : a.isBuy = b.isBuy) :
@@ -221,10 +222,10 @@ theorem eq_correct (a b : Order K) (dflt : K) (x : Nat → Int) (y : Nat → Boo
   order_op "Order.__eq__" [] eq_ff eq_ft eq_tf eq_tt
 
 
-theorem le_tt : opPaths "Order.__le__" [] true true = nf% (opPaths "Order.__le__" [] true true) := by rfl
-theorem le_tf : opPaths "Order.__le__" [] true false = nf% (opPaths "Order.__le__" [] true false) := by rfl
-theorem le_ft : opPaths "Order.__le__" [] false true = nf% (opPaths "Order.__le__" [] false true) := by rfl
-theorem le_ff : opPaths "Order.__le__" [] false false = nf% (opPaths "Order.__le__" [] false false) := by rfl
+theorem le_tt : opPaths "Order.__le__" [] true true = evalnf% (opPaths "Order.__le__" [] true true) := by kernel_rfl
+theorem le_tf : opPaths "Order.__le__" [] true false = evalnf% (opPaths "Order.__le__" [] true false) := by kernel_rfl
+theorem le_ft : opPaths "Order.__le__" [] false true = evalnf% (opPaths "Order.__le__" [] false true) := by kernel_rfl
+theorem le_ff : opPaths "Order.__le__" [] false false = evalnf% (opPaths "Order.__le__" [] false false) := by kernel_rfl
 
 theorem le_correct (a b : Order K) (dflt : K) (x : Nat → Int) (y : Nat → Bool) (hs : a.isBuy = b.isBuy) :
     result (rho2 a b dflt x y) env FUEL "Order.__le__" [.ref 1, .ref 2]
@@ -235,10 +236,10 @@ theorem le_correct (a b : Order K) (dflt : K) (x : Nat → Int) (y : Nat → Boo
   subst hs
   order_op "Order.__le__" [] le_ff le_ft le_tf le_tt
 
-theorem ge_tt : opPaths "Order.__ge__" [] true true = nf% (opPaths "Order.__ge__" [] true true) := by rfl
-theorem ge_tf : opPaths "Order.__ge__" [] true false = nf% (opPaths "Order.__ge__" [] true false) := by rfl
-theorem ge_ft : opPaths "Order.__ge__" [] false true = nf% (opPaths "Order.__ge__" [] false true) := by rfl
-theorem ge_ff : opPaths "Order.__ge__" [] false false = nf% (opPaths "Order.__ge__" [] false false) := by rfl
+theorem ge_tt : opPaths "Order.__ge__" [] true true = evalnf% (opPaths "Order.__ge__" [] true true) := by kernel_rfl
+theorem ge_tf : opPaths "Order.__ge__" [] true false = evalnf% (opPaths "Order.__ge__" [] true false) := by kernel_rfl
+theorem ge_ft : opPaths "Order.__ge__" [] false true = evalnf% (opPaths "Order.__ge__" [] false true) := by kernel_rfl
+theorem ge_ff : opPaths "Order.__ge__" [] false false = evalnf% (opPaths "Order.__ge__" [] false false) := by kernel_rfl
 
 theorem ge_correct (a b : Order K) (dflt : K) (x : Nat → Int) (y : Nat → Bool) (hs : a.isBuy = b.isBuy) :
     result (rho2 a b dflt x y) env FUEL "Order.__ge__" [.ref 1, .ref 2]
@@ -249,10 +250,10 @@ theorem ge_correct (a b : Order K) (dflt : K) (x : Nat → Int) (y : Nat → Boo
   subst hs
   order_op "Order.__ge__" [] ge_ff ge_ft ge_tf ge_tt
 
-theorem ne_tt : opPaths "Order.__ne__" [] true true = nf% (opPaths "Order.__ne__" [] true true) := by rfl
-theorem ne_tf : opPaths "Order.__ne__" [] true false = nf% (opPaths "Order.__ne__" [] true false) := by rfl
-theorem ne_ft : opPaths "Order.__ne__" [] false true = nf% (opPaths "Order.__ne__" [] false true) := by rfl
-theorem ne_ff : opPaths "Order.__ne__" [] false false = nf% (opPaths "Order.__ne__" [] false false) := by rfl
+theorem ne_tt : opPaths "Order.__ne__" [] true true = evalnf% (opPaths "Order.__ne__" [] true true) := by kernel_rfl
+theorem ne_tf : opPaths "Order.__ne__" [] true false = evalnf% (opPaths "Order.__ne__" [] true false) := by kernel_rfl
+theorem ne_ft : opPaths "Order.__ne__" [] false true = evalnf% (opPaths "Order.__ne__" [] false true) := by kernel_rfl
+theorem ne_ff : opPaths "Order.__ne__" [] false false = evalnf% (opPaths "Order.__ne__" [] false false) := by kernel_rfl
 
 theorem ne_correct (a b : Order K) (dflt : K) (x : Nat → Int) (y : Nat → Bool) (hs : a.isBuy = b.isBuy) :
     result (rho2 a b dflt x y) env FUEL "Order.__ne__" [.ref 1, .ref 2]
@@ -266,8 +267,8 @@ theorem ne_correct (a b : Order K) (dflt : K) (x : Nat → Int) (y : Nat → Boo
 /-! ### `Order.is_expired` -/
 
 def expPaths (hasTtl : Bool) := obsPaths env FUEL "Order.is_expired" [.ref 1, .int (.atom 5)] (st2 false hasTtl false false)
-theorem exp_t : expPaths true = nf% (expPaths true) := by rfl
-theorem exp_f : expPaths false = nf% (expPaths false) := by rfl
+theorem exp_t : expPaths true = evalnf% (expPaths true) := by kernel_rfl
+theorem exp_f : expPaths false = evalnf% (expPaths false) := by kernel_rfl
 
 /-- **`Order.is_expired(time)`** is the model's `Order.expired` (int atom 5 = `time`) -/
 theorem is_expired_correct (a b : Order K) (time : Nat) (dflt : K) (x : Nat → Int) (y : Nat → Bool)
